@@ -543,9 +543,12 @@ func TestVerifC17(t *testing.T) {
 		rep.Finish()
 		return
 	}
-	deadline := rep.Deadline(80*time.Second, 15*time.Minute)
-	ex := poolSC(t, rep, deadline)
-	ex = poolSeq(t, rep, deadline) && ex
+	deadline := rep.Deadline(80*time.Second, 18*time.Minute)
+	// each part gets its own share of the budget (a cut part must not starve the others)
+	total := time.Until(deadline)
+	start := time.Now()
+	ex := poolSC(t, rep, start.Add(total*4/10))
+	ex = poolSeq(t, rep, start.Add(total*6/10)) && ex
 	ex = managerEV(t, rep, deadline) && ex
 	rep.SetExhaustive(ex)
 	if rep.Finish() > 0 {
